@@ -9,6 +9,7 @@ import (
 	"log/slog"
 	"os"
 	"sort"
+	"strings"
 	"sync"
 	"sync/atomic"
 
@@ -59,7 +60,10 @@ func run(c *core.Ctx) {
 		return
 	}
 
-	if kit.ModelCheck(c, "TokenAuth.tla", "MC_C11.cfg", tlc.Options{Workers: 4}) == nil {
+	// Gen_C11.cfg checks every invariant of MC_C11.cfg on the same state space and
+	// prints the behaviours; the thorough tier additionally runs the plain
+	// model-checking configuration with several workers.
+	if c.Thorough() && kit.ModelCheck(c, "TokenAuth.tla", "MC_C11.cfg", tlc.Options{Workers: 4}) == nil {
 		return
 	}
 	raws := kit.Generate(c, "Gen_TokenAuth.tla", "Gen_C11.cfg", tlc.Options{})
@@ -168,8 +172,8 @@ func expand(c *core.Ctx, fx *tokreplay.Fixture, scs []*tokreplay.Scn) []job {
 			for b := 0; b < 8; b++ {
 				edits = append(edits, ed{"flip", b})
 			}
-			for b := 0; b < 6; b++ {
-				edits = append(edits, ed{"sub", b * 11})
+			for b := 0; b < 10; b++ {
+				edits = append(edits, ed{"sub", b * 6})
 			}
 			edits = append(edits, ed{"del", 0}, ed{"ins", 0}, ed{"ins", 5}, ed{"dot", 0}, ed{"swap", 0})
 			for base := 0; base < 4; base++ {
@@ -177,9 +181,9 @@ func expand(c *core.Ctx, fx *tokreplay.Fixture, scs []*tokreplay.Scn) []job {
 					for _, e := range edits {
 						if !th {
 							// quick: seeded sample with the class ends always present
-							p := 0.06
+							p := 0.11
 							if sc.Pos != "mid" {
-								p = 0.5
+								p = 0.6
 							}
 							if rng.Float64() > p {
 								continue
@@ -196,12 +200,12 @@ func expand(c *core.Ctx, fx *tokreplay.Fixture, scs []*tokreplay.Scn) []job {
 					add(sc, tokreplay.Variant{Delta: x})
 				}
 			} else {
-				n := map[string]int{"none": 4, "pool": 2, "otherkey": 2, "unknownkid": 5, "sig_same": 6, "space": 4}[kind]
+				n := map[string]int{"none": 4, "pool": 2, "otherkey": 2, "unknownkid": 15, "sig_same": 6, "space": 4}[kind]
 				if n == 0 {
 					n = 1
 				}
 				for a := 0; a < n; a++ {
-					add(sc, tokreplay.Variant{Alt: a, Base: a, Idx: rng.Intn(40)})
+					add(sc, tokreplay.Variant{Alt: a, Base: a, Idx: a / 5})
 				}
 			}
 		case fieldLen > 0:
@@ -220,8 +224,10 @@ func expand(c *core.Ctx, fx *tokreplay.Fixture, scs []*tokreplay.Scn) []job {
 						add(sc, tokreplay.Variant{Idx: i, Bit: rng.Intn(63), Edit: "sub"})
 					}
 				case th:
-					add(sc, tokreplay.Variant{Idx: i, Bit: rng.Intn(8), Edit: "flip"})
-					add(sc, tokreplay.Variant{Idx: i, Bit: rng.Intn(8), Edit: "flip"})
+					// nonces and their echoes: every bit of all 256 bytes
+					for b := 0; b < 8; b++ {
+						add(sc, tokreplay.Variant{Idx: i, Bit: b, Edit: "flip"})
+					}
 				default:
 					for k := 0; k < perPos; k++ {
 						add(sc, tokreplay.Variant{Idx: i, Bit: rng.Intn(8), Edit: "flip"})
@@ -339,11 +345,14 @@ func runJob(fx *tokreplay.Fixture, model tokreplay.Model, j job, st *stats) *dif
 	if o.Dead {
 		return &diff{broken: fmt.Sprintf("%s %+v: exchange did not terminate (watchdog)", sc.Key(), j.V)}
 	}
-	if o.RefBad != "" {
-		return &diff{broken: fmt.Sprintf("%s %+v: %s", sc.Key(), j.V, o.RefBad)}
-	}
 	st.observe(fmt.Sprintf("%s msg%d %s [%s]", eff.Kind, eff.Msg, eff.Via, eff.Expect()), o.Out().String())
 	if tokreplay.Conforms(eff, o) {
+		if o.RefBad != "" {
+			// outcome allowed, but an honest endpoint's proof is not the MAC the
+			// reference derives from the token signature: reference or code deviates
+			// from the documented derivation - not decidable from the statement alone
+			return &diff{broken: fmt.Sprintf("%s %+v: %s", sc.Key(), j.V, o.RefBad)}
+		}
 		return nil
 	}
 	var allowed []string
@@ -364,8 +373,8 @@ func runJob(fx *tokreplay.Fixture, model tokreplay.Model, j job, st *stats) *dif
 	}
 	return &diff{
 		sig: map[string]string{"spec": "TokenAuth", "role": eff.Role, "dev": eff.Kind, "msg": fmt.Sprint(eff.Msg), "via": eff.Via, "got": got},
-		detail: fmt.Sprintf("deviation %s (message %d, %s, route %s) aimed at the %s: the statement allows {%v}; real endpoints: %s (server user %q); client error: %q; server error: %q; client-finished-by-relay=%v %s",
-			eff.Kind, eff.Msg, posText(sc), eff.Via, eff.Role, allowed, o.Out().String(), o.User, o.CErr, o.SErr, o.Injected, o.Note),
+		detail: fmt.Sprintf("deviation %s (message %d, %s, route %s) aimed at the %s: the statement allows { %s }; real endpoints: %s (server user %q); client error: %q; server error: %q; client-finished-by-relay=%v %s",
+			eff.Kind, eff.Msg, posText(sc), eff.Via, eff.Role, strings.Join(allowed, " | "), o.Out().String(), o.User, o.CErr, o.SErr, o.Injected, o.Note),
 		scn: rs}
 }
 
